@@ -176,7 +176,22 @@ def check_native(l, rp, oc):
     return bad
 
 
+def _mixed_modes_same_raw(env, model):
+    """both operands annotated, compiled in DIFFERENT modes, with the same raw annotation value in the model: the native
+    realisation has no counterpart (a postponed function stores the expression text, an eager one the object: natively the two
+    raw values are equal only if the eager annotation is that very string) - the symbolic model over-approximates here"""
+    from vf.concrete import Concretizer
+    conc = Concretizer(model)
+    a, b = env['infos']
+    pa, pb = a.params[0]._d['_annotation'], b.params[0]._d['_annotation']
+    return (conc.boolean(pa.has) and conc.boolean(pb.has) and conc.boolean(a.postponed) != conc.boolean(b.postponed)
+            and conc.val(pa.val) == conc.val(pb.val))
+
+
 def replay(env, vc, model):
+    if _mixed_modes_same_raw(env, model):
+        return dict(status='no-replay', op='concile', note='counterexample compares the raw annotation of a postponed function with an equal raw '
+                    'annotation of an eagerly compiled one: not realisable with compiled functions (the postponed one stores the expression text)')
     conc, l, rp, oc = _native(env, model)
     bad = check_native(l, rp, oc)
     # equals_summary is the conjunction of the independent clauses on concrete data
@@ -194,6 +209,8 @@ def crosscheck(env, r):
         return 'path condition not satisfiable at path end'
     if env.get('absent'):
         return None
+    if _mixed_modes_same_raw(env, s.model()):
+        return None
     conc, l, rp, oc = _native(env, s.model())
     if r.outcome == 'raise':
         return None if oc[0] == 'raise' and type(oc[1]).__name__ == r.exc.typname else 'symbolic raise %s, native %r' % (r.exc.typname, oc)
@@ -205,8 +222,9 @@ def crosscheck(env, r):
     d, a = res._d['_default'], res._d['_annotation']
     sym_data = (conc.name(res._d['_name']), res._d['_kind'], conc.boolean(d.has), conc.val(d.val) if conc.boolean(d.has) else None,
                 conc.boolean(a.has), conc.val(a.val) if conc.boolean(a.has) else None)
+    from vf.concrete import ann_raw       # (a postponed native function stores the spelling A<raw> of the raw value)
     nat_data = (nat.name, int(nat.kind), nat.default is not E, nat.default if nat.default is not E else None,
-                nat.annotation is not E, nat.annotation if nat.annotation is not E else None)
+                nat.annotation is not E, ann_raw(nat.annotation) if nat.annotation is not E else None)
     if sym_data != nat_data:
         return 'results differ on %s, %s: symbolic %r native %r' % (l, rp, sym_data, nat_data)
     return None
